@@ -5,6 +5,7 @@ import Mdsort.Proofs.WorldStdinExample
 import Mdsort.Proofs.EvalErrProp
 import Mdsort.Proofs.EvalAtt
 import Mdsort.Proofs.ExecStatus
+import Mdsort.Proofs.WorldFuelConform
 import Mdsort.Proofs.EvalPFail
 import Mdsort.Proofs.WorldIndependent
 
@@ -255,9 +256,12 @@ theorem C04_walk_error_iff (env : PEnv) (orc : EvalOracles) (expr : Expr) (fuel 
 of the next step; the theorem therefore says: the flag is the disjunction of the enumerated top-level causes and of the error
 values of the sub-programs, nothing is swallowed in between and nothing else sets it.  It does not by itself say which libc
 failures make `matchesExec` / `messageParseP` report an error - that is `C01_fault_reported` and the `All`-lemmas on the
-scripts.  Fuel: the walks inside are `walk .. (2n+8)` / `walk .. 64`; an oracle whose `readdir` keeps returning names makes the
-MODEL stop silently when the fuel is spent (no cause `WalkErr` for that), where mdsort would go on - the statement is about
-the model's truncated walk in that case, the conformance run reports the divergence.)  The error flag `main` derives its exit status from is set iff one of the causes
+scripts.  Fuel (package p12): the walks inside are `walk .. (2n+8+env.extraFuel)` / `walk .. (64+env.extraFuel)`; an oracle whose
+`readdir` keeps returning names makes the MODEL stop when the fuel is spent, where mdsort would go on.  That is no longer
+silent: the final state then has `fuelOut = true`.  What is covered: the theorem holds for EVERY `env`, hence every
+allowance; for a run that ends with `fuelOut = false` it is a statement about the run of the unbounded loops
+(`C04_fuel_irrelevant`: the same run for every larger allowance); for a run that ends with `fuelOut = true` it is a
+statement about a truncation, which the conformance check reports as a divergence.)  The error flag `main` derives its exit status from is set iff one of the causes
 `Proofs.MainErr` (Proofs/WorldFrameMain.lean) occurred in this run: the configuration file cannot be
 opened; the configuration is not valid; or - unless `-n` - for some block and some selected path of
 it (`Proofs.PathsErr`, `Proofs.BlocksErr`): the stdin spool cannot be set up, the path or path +
@@ -280,9 +284,10 @@ example :
 
 /-- **Isolation of the calls of a whole run in maildir mode** (`-` not given): every call is a
 `readdir` or satisfies the frame condition for the name the last `readdir` returned (between walks
-only the configuration file, `opendir` and `closedir` are used).  (Audit au1: each walk inside `mainP` has fuel `2n+8`, `n` =
-registered files of the maildir; under an oracle that lists more entries than that the model's run is shorter than mdsort's.
-The walk-level statement `C04_isolation_calls` holds for EVERY fuel, so nothing is lost for the frame itself.) -/
+only the configuration file, `opendir` and `closedir` are used).  (Audit au1 / package p12: each walk inside `mainP` has fuel `2n+8+env.extraFuel`, `n` =
+registered files of the maildir; under an oracle that lists more entries than that the model's run is shorter than
+mdsort's - and then ends with `fuelOut = true`.  Covered: every `env` (every allowance); a run with `fuelOut = false` is the
+run of the unbounded loops (`C04_fuel_irrelevant`).  The walk-level statement `C04_isolation_calls` holds for EVERY fuel.) -/
 theorem C04_isolation_calls_main (env : PEnv) (orc : EvalOracles) (ok : Bool) (conf : List ConfBlock) (files : Files)
     (input : Bytes) (hm : env.stdinMode = false) (orcl : Nat → Call → Res) :
     ∀ i c r, (runOracle orcl (mainP env orc ok conf files input) 0 []).2[i]? = some (c, r) →
@@ -923,5 +928,62 @@ example :
     (parseArgs true ["-".toUTF8.toList]).toOption.map (·.stdinMode) = some true ∧
     (parseArgs true ["--".toUTF8.toList, "-".toUTF8.toList]).toOption.map (·.stdinMode) = some true := by
   decide +kernel
+/-! ## the fuel of the model's `readdir` loops (package p12; audit au1, W4)
+
+mdsort's loops over a directory are unbounded (`while ((ent = readdir(dir)))`); a `Prog` is a well-founded tree, so the
+model's `walk` (maildir: `2n+8`, spool: `64`) and `closeStdin.loop` (`64`) carry fuel, now plus the ghost `env.extraFuel`.
+Running out of fuel used to end the loop SILENTLY; it now sets `MainSt.fuelOut` (never cleared; `closeStdin` reports it),
+and the conformance check treats it as a divergence (`tools/world.py`, driver answer `FUELOUT`).
+
+Every theorem about `mainP` - for arbitrary call results: `C04_error_iff_partial`, `C04_isolation_calls_main`,
+`C05_dry_stdin`, `C13_fd_hygiene`, `C18_no_truncated_path`, ...; under fault plans: C01, C02, C05 - is quantified over `env`
+and therefore holds for every value of the allowance.  The theorems below say what that covers:
+
+* a run that ends with `fuelOut = false` is THE SAME RUN for every larger allowance (`C04_fuel_irrelevant*`): the theorem
+  speaks about the run of the unbounded loops;
+* along an observed trace, an allowance of the length of the trace always suffices (`C04_fuel_suffices_conform`) - the
+  driver uses exactly that allowance, so a `done` answer of the conformance check is never a truncated walk;
+* a run that ends with `fuelOut = true` is a truncation of mdsort's run (witness: `C01_fuel_can_run_out`). -/
+
+/-- **Arbitrary call results** (`orcl i c` = the result of the i-th call: every behaviour of the file system, of faults and
+of other parties): if the run of `mainP` ends with `fuelOut = false`, then for EVERY larger allowance `k` the run is the
+same - same exit status, same final state, same calls with the same results. -/
+theorem C04_fuel_irrelevant (env : PEnv) (orc : EvalOracles) (confOk : Bool) (conf : List ConfBlock) (files : Files)
+    (input : Bytes) (orcl : Nat → Call → Res) (k : Nat) (hk : env.extraFuel ≤ k)
+    (h : (runOracle orcl (mainP env orc confOk conf files input) 0 []).1.2.fuelOut = false) :
+    runOracle orcl (mainP { env with extraFuel := k } orc confOk conf files input) 0 [] =
+      runOracle orcl (mainP env orc confOk conf files input) 0 [] :=
+  Proofs.Fuel.fuel_irrelevant_oracle env orc confOk conf files input orcl k hk h
+
+/-- The same on the abstract file system under a fault plan (value, final world, the world after every call). -/
+theorem C04_fuel_irrelevant_plan (env : PEnv) (orc : EvalOracles) (confOk : Bool) (conf : List ConfBlock) (files : Files)
+    (input : Bytes) (plan : Plan) (w : World) (k : Nat) (hk : env.extraFuel ≤ k)
+    (h : (runPlan plan (mainP env orc confOk conf files input) w 0 []).1.2.fuelOut = false) :
+    runPlan plan (mainP { env with extraFuel := k } orc confOk conf files input) w 0 [] =
+      runPlan plan (mainP env orc confOk conf files input) w 0 [] :=
+  Proofs.Fuel.fuel_irrelevant_plan env orc confOk conf files input plan w k hk h
+
+/-- The same for the conformance walk along an observed trace: a `done` answer without `fuelOut` is the `done` answer for
+every larger allowance. -/
+theorem C04_fuel_irrelevant_conform (env : PEnv) (orc : EvalOracles) (confOk : Bool) (conf : List ConfBlock) (files : Files)
+    (input : Bytes) (w : World) (tr : List (Call × Res)) (k : Nat) (hk : env.extraFuel ≤ k)
+    (a : Nat × MainSt) (w' : World) (rest : List (Call × Res))
+    (hd : conform (mainP env orc confOk conf files input) w tr 0 = .done a w' rest) (h : a.2.fuelOut = false) :
+    conform (mainP { env with extraFuel := k } orc confOk conf files input) w tr 0 = .done a w' rest :=
+  Proofs.Fuel.fuel_irrelevant_conform env orc confOk conf files input w tr k hk hd h
+
+/-- **Along an observed trace an allowance of the length of the trace suffices** - for EVERY trace (results possible in
+the abstract file system or not): if `env.extraFuel ≥ |tr|` and the conformance walk ends (`done`), no loop of the model
+stopped for lack of fuel.  Bound: every iteration of a loop issues a call and a `done` walk consumes one element of the
+trace per call, so no loop makes more than `|tr|` iterations; the allowance is ADDED to the standard one. -/
+theorem C04_fuel_suffices_conform (env : PEnv) (orc : EvalOracles) (confOk : Bool) (conf : List ConfBlock) (files : Files)
+    (input : Bytes) (w : World) (tr : List (Call × Res)) (hlen : tr.length ≤ env.extraFuel)
+    (a : Nat × MainSt) (w' : World) (rest : List (Call × Res))
+    (hd : conform (mainP env orc confOk conf files input) w tr 0 = .done a w' rest) : a.2.fuelOut = false :=
+  Proofs.Fuel.fuel_suffices_conform env orc confOk conf files input w tr hlen hd
+
+/-- Non-vacuity of the hypotheses `fuelOut = false` / `hk` / `hlen`: `C01_fuel_can_run_out` (Props/C01.lean) evaluates a run
+that ends WITH the flag under the standard allowance and WITHOUT it under an allowance of 5; `0 ≤ 5`. -/
+example : Proofs.examplePEnv.extraFuel ≤ 5 ∧ ([] : List (Call × Res)).length ≤ Proofs.examplePEnv.extraFuel := ⟨by decide, by decide⟩
 
 end Mdsort.Props
